@@ -29,7 +29,8 @@ MANIFEST = {
             "terminated remainder is consumed whole), both seek and carry(prepend/gzip) modes. Theorem C01.readAll_bytes: for EVERY "
             "well-formed file, EVERY chunk size k>=1, both modes, the concatenation of the delivered chunks is the newline-terminated "
             "file and every chunk is non-empty and ends an entry; instantiated for the delimited, two-line FASTA and FASTQ formats; "
-            "wrapped FASTA (fasta_laws, all byte strings); entries_chunks_kLine / readAll_delimited lift it to entries (groups of n lines). The shipped end-of-file rule is refuted in Lean (readAll_old_loses) and was "
+            "wrapped FASTA (fasta_laws, all byte strings); entries_chunks_kLine / readAll_delimited lift it to entries (groups of n lines). A second, well-formedness-free run of the invariant (readAll_bytesT, readAll_kLine_any_file) "
+            "covers files that end inside a record: exactly the whole records are delivered, for every chunk size. The shipped end-of-file rule is refuted in Lean (readAll_old_loses) and was "
             "repaired in /repo. Correspondence: real reader vs Lean model on every small file x every chunk size x both modes (bytes), "
             "and chunked-vs-whole entry equality for ten formats x gzip x CRLF x lazy/eager.",
     "note": "The buffer classes' completeness tests are modelled on the concatenation of the pending raw chunks; MultiLineFastaBuffer's "
